@@ -129,7 +129,7 @@ def campaign(tier, seed, nspecs=None, opts=None, tag="t2", with_clone=True):
     and the model.  Cached under work/cache by (repo tree, tools, seed, tier).  Returns dict(cases=[...], batch=..., specs=[...])."""
     import specgen
     rng = Rng(seed).fork("t2" + tier + tag)
-    nspecs = nspecs or (60 if tier == "quick" else 600)
+    nspecs = nspecs or (40 if tier == "quick" else 600)
     nvals = 8 if tier == "quick" else 30
     key = hashlib.sha256(("%s|%s|%s|%s|%d|%s|%s" % (repo_tree_hash(), tools_hash(), tier, seed, nspecs, json.dumps(opts, sort_keys=True), tag)).encode()).hexdigest()[:16]
     cdir = os.path.join(WORK, "cache")
@@ -202,7 +202,9 @@ def targeted(b, marks, rng):
 
 
 def _campaign(rng, tier, nspecs, nvals, opts, tag, with_clone):
-    cases_spec = t3.corpus_supported(nspecs, rng, variants=1, opts=opts)
+    import specgen
+    cases_spec = [{"text": specgen.render(items), "meta": {"flags": [], "catalog": ctag}} for ctag, items in specgen.catalog()]
+    cases_spec += t3.corpus_supported(nspecs, rng, variants=1, opts=opts)
     texts = [c["text"] for c in cases_spec]
     batch = Batch(texts, with_clone=with_clone, tag=tag)
     spec_lines = ["spec " + t3.hx(t) for t in texts]
@@ -222,6 +224,16 @@ def _campaign(rng, tier, nspecs, nvals, opts, tag, with_clone):
                     greqs.append("genval %d %s %d %d" % (k, ty, seed, lead))
                     gmeta.append((k, ty, lead, -1))
     gout = run_driver(spec_lines + greqs)[len(spec_lines):]
+    # values that are one item over a declared maximum at one position, with all their bytes present
+    oreqs, ometa = [], []
+    for k, rep in enumerate(loaded):
+        if batch.status.get(str(k)) != "ok":
+            continue
+        for ty in type_names(rep):
+            for vk in range(1, 4 if tier == "quick" else 9):
+                oreqs.append("genover %d %s %d %d" % (k, ty, rng.below(1 << 30), vk))
+                ometa.append((k, ty))
+    oout = run_driver(spec_lines + oreqs)[len(spec_lines):]
     reqs, meta = [], []
 
     def add(k, ty, lead, b, kind, base=None, expect=None, what=None):
@@ -269,6 +281,9 @@ def _campaign(rng, tier, nspecs, nvals, opts, tag, with_clone):
                 if tier == "quick" and rng.below(3):
                     continue
                 add(k, ty, lead, b[:4 * w] + val.to_bytes(4, "big") + b[4 * w + 4:], "word", nbase)
+    for (k, ty), line in zip(ometa, oout):
+        if line and line not in ("skip", "no-spec", "bad-op") and len(line) < 4000:
+            add(k, ty, 0, bytes.fromhex(line), "targeted", None, "err InvalidLength", "over-max-present")
     # random word strings per type
     for k, rep in enumerate(loaded):
         if batch.status.get(str(k)) != "ok":
